@@ -17,7 +17,7 @@ Readings fixed here (the property text is ambiguous at these points):
    in quarters, step/alter/octave and staff (voices, ties, rests and signatures are not demanded).
  * supported subset = what the property's quantifier lists.  Ties of chord notes in kern are a
    documented gap of the importer ("not handled yet"): generated only when the open finding
-   F-C19-9 is registered in known_findings.json.
+   F-C19-kern-chord-ties is registered in known_findings.json (proposal: fixes/C19-22-known-finding.json).
 """
 import io
 import json
@@ -55,6 +55,7 @@ LEVEL_TEXT = ("Lean theorems over all token lists about the denotational semanti
               "semantics by a differential run on generated kern/MEI documents and every fixture, with an independent "
               "Python oracle computed from the abstract score.")
 SEARCH_LIMIT = 1500
+KNOWN_CHORD_TIES = "F-C19-kern-chord-ties"
 
 STEPS = "CDEFGAB"
 REPO = os.environ.get("VERIF_REPO", "/repo")
@@ -1410,8 +1411,8 @@ def rand_layout(rng):
 
 
 def cases(rng, tier):
-    n = {"quick": 70, "thorough": 2000, "search": 1200}.get(tier, 70)
-    chord_ties = any(k.get("key") == "F-C19-9" and k.get("status") == "open" for k in load_known())
+    n = {"quick": 160, "thorough": 2000, "search": 1200}.get(tier, 160)
+    chord_ties = any(k.get("key") == KNOWN_CHORD_TIES and k.get("status") == "open" for k in load_known())
     yield {"k": "tables"}
     yield {"k": "dispatch"}
     for fmt, pth in fixture_paths():
@@ -1530,8 +1531,26 @@ def eval_mei(d):
     return ev
 
 
+def has_tied_chord(d):
+    a = d.get("asc")
+    if not a:
+        return False
+    return any(e.get("tie") and len(e.get("p", [])) > 1
+               for st in a["staves"] for v in st["voices"] for mm in v if mm for e in mm)
+
+
 def finding_key(d, f):
-    return d["k"] + ":" + f.split(":")[0]
+    clause = f.split(":")[0]
+    if d["k"] == "kern" and clause == "ties" and has_tied_chord(d):
+        return "kern:ties:chord"
+    return d["k"] + ":" + clause
+
+
+def mismatch_known(d, m, known):
+    """a model/implementation difference on a kern document with tied chords is the open finding"""
+    return (d["k"] == "kern" and has_tied_chord(d)
+            and any(k.get("key") == KNOWN_CHORD_TIES for k in known)
+            and m[2].startswith(("kern notes", "kern joined")))
 
 
 def shrink(d):
